@@ -15,10 +15,21 @@ queries as the real shard.
 patterns by `F32.key` (IEEE order on non-NaN values, -0 = +0).  `pick` is the order in which the
 implementation returned the documents; it is used only to break ties between equal scores (Go's
 sort is unstable: any sorted permutation is a correct answer, see `C05_match`).
+
+  scorecheck w=<-|hex32> q=<-|t,t,…> sc=<id:score:hybrid,…>          (state unchanged)
+
+The FORMULA line: for every listed document the driver evaluates the expression generated from text.go
+(`scoreGen`: the generated loop body folded over the query term set, on the MODEL's index state — its
+numDocs, posting sizes, document record) with hardware floats and answers `ok n=<k>` when for some order
+of the term set (Go ranges over a map) the result is the real `_score` (bit for bit; at most `scoreUlp`
+float32 ulps when the C library's log10 differs from Go's), and the generated `score * weight`
+applied to the real score is the real `_hybridScore` bit for bit.  More than 7 distinct terms: the
+orders are not enumerated; the first order must be within the rounding bound of a k-term float32 sum.
 -/
 import SemaModel.Base.DriverUtil
 import SemaModel.Base.Float
 import SemaModel.C05.Model
+import SemaModel.C05.ScoreGen
 namespace Sema.C05
 open Sema
 
@@ -90,6 +101,44 @@ def dsorter (pick : List Nat) (l : List (Res DScore)) : List (Res DScore) :=
     let ka := dkey a.score; let kb := dkey b.score
     if ka > kb then true else if ka < kb then false else idxOf pick a.id ≤ idxOf pick b.id
 
+/-- all orders of a list -/
+def insertAll {A : Type} (a : A) : List A → List (List A)
+  | [] => [[a]]
+  | x :: l => (a :: x :: l) :: (insertAll a l).map (x :: ·)
+def perms {A : Type} : List A → List (List A)
+  | [] => [[]]
+  | a :: l => (perms l).flatMap (insertAll a)
+
+def f32Of (bits : Nat) : Float32 := Float32.ofBits bits.toUInt32
+def ulp32 (a b : Float32) : Nat :=
+  let k (f : Float32) : Int := if f.toBits.toNat ≥ 2 ^ 31 then -((f.toBits.toNat - 2 ^ 31 : Nat) : Int) else (f.toBits.toNat : Int)
+  (k a - k b).natAbs
+/-- stated bound for the score: Lean's `Float.log10` is the C library's, Go's `math.Log10(x)` is `log2(x) * (Ln2/Ln10)`;
+they may differ in the last places of the float64, which survives `float32(idf)` only on a rounding boundary.
+Measured (notes/C05.md): 0 ulp on every compared score. -/
+def scoreUlp : Nat := 1
+
+def checkOne (ix : Index String) (ts : List String) (w : Option Go.FExpr) (id : Nat) (d : DScore) : Option String :=
+  match alookup ix.docs id with
+  | none => some s!"no-doc:{id}"
+  | some r =>
+    let real := f32Of d.bits
+    let hyb := (ScoreOps.ofGenerated.scale w (Go.FExpr.var (BitVec.ofNat 32 d.bits))).eval
+    if hyb.toBits.toNat != d.hbits && !(hyb.isNaN && (f32Of d.hbits).isNaN) then
+      some s!"hybrid-mismatch:{id}:real={hexOfNat 8 d.hbits}:model={hexOfNat 8 hyb.toBits.toNat}"
+    else
+      let first := (scoreGen ix ts r).eval
+      let okScore :=
+        if ts.length ≤ 7 then
+          (perms ts).any fun o => let m := (scoreGen ix o r).eval; !m.isNaN && ulp32 m real ≤ scoreUlp
+        else
+          -- too many orders: within the rounding bound of a k-term float32 sum around the first order
+          let terms := ts.map fun t => (scoreGen ix [t] r).eval.toFloat.abs
+          let bound := (terms.foldl (· + ·) 0.0) * (ts.length.toFloat + 4.0) * 1.1920929e-7
+          (first.toFloat - real.toFloat).abs ≤ bound
+      if okScore then none
+      else some s!"score-mismatch:{id}:real={hexOfNat 8 d.bits}:model-first-order={hexOfNat 8 first.toBits.toNat}"
+
 def step (ix : Index String) (line : String) : Index String × String :=
   let ws := (line.trimAscii.toString.splitOn " ").filter (· ≠ "")
   match ws with
@@ -111,6 +160,15 @@ def step (ix : Index String) (line : String) : Index String × String :=
     | some (set, rs) =>
       (ix, "set=" ++ joinWith "," ((sortNat set).map toString) ++ " res=" ++
         joinWith "," (rs.map fun r => s!"{r.id}:{hexOfNat 8 r.score.bits}:{hexOfNat 8 r.hybrid.hbits}"))
+  | "scorecheck" :: rest =>
+    let ts := dedup (parseTerms (field "q" rest))
+    let w : Option Go.FExpr := match natOfHex (field "w" rest) with
+      | some b => if field "w" rest == "-" then none else some (Go.FExpr.var (BitVec.ofNat 32 b))
+      | none => none
+    let table := parseScores (field "sc" rest)
+    match table.filterMap (fun e => checkOne ix ts w e.1 e.2) with
+    | [] => (ix, s!"ok n={table.length}")
+    | errs => (ix, joinWith " " errs)
   | _ => (ix, "bad-op")
 
 end Sema.C05
